@@ -204,6 +204,12 @@ func runC12(t *testing.T, spec RunSpec) *RunResult {
 				if role == "overlap" {
 					ps.Weight = 0.3
 				}
+				if role == "extra" {
+					ps.Weight = 0.2
+					ps.JoinWith = true
+					ps.JoinClass = "sync."
+					ps.JoinP = 0.25
+				}
 			}
 			var members []uint16
 			switch ph.Kind {
@@ -242,8 +248,24 @@ func runC12(t *testing.T, spec RunSpec) *RunResult {
 							if i == ph.Missing%len(signers) {
 								role = "cancel"
 							}
+						case "sg-extra":
+							exp = "any"
 						}
 						add(topic, id, exp, role, deadline, false)
+						if ph.Kind == "sg-extra" && i == len(signers)-1 {
+							// one member too many (race-detector runs only): a member outside the selected set calls Sign on
+							// the same topic, late, in the very step in which a message is dispatched into it
+							isSigner := map[uint16]bool{}
+							for _, sid := range signers {
+								isSigner[sid] = true
+							}
+							for _, xid := range cfg.Deploy.IDs {
+								if !isSigner[xid] {
+									add(topic, xid, "any", "extra", deadline, false)
+									break
+								}
+							}
+						}
 						if ph.Kind == "sg-overlap" && i == ph.Missing%len(signers) && ti == 0 {
 							// the same node calls Sign on the same topic a second time while the first is running
 							add(topic, id, "err", "overlap", deadline, false)
